@@ -11,6 +11,10 @@
 #include <asl/Xml.h>
 #include <asl/TextFile.h>
 #include <map>
+#include <vector>
+#include <mutex>
+#include <atomic>
+#include <thread>
 #include <algorithm>
 
 using namespace asl;
@@ -872,6 +876,45 @@ static void m_trunc(vf::Ctx& c)
 	if (c.want_sample()) c.sample(vf::vis(text, 300));
 }
 
+// ---------------------------------------------------------------- decode_mt: the first decodes of a process, in several threads at once
+// Each case runs in a freshly forked process (batch=1), so these are the first calls of Xml::decode there. Every thread works on
+// its own texts and trees (beyond the stated quantifier, which has no schedules; lazily initialised process-wide tables fail here).
+static void m_decode_mt(vf::Ctx& c)
+{
+	int T = c.rng.range(2, 6), rounds = 25;
+	uint64_t seed = c.rng.next();
+	c.desc(vf::fmt("%d threads released together, each decoding %d documents with entities and character references, first use of the parser in this process", T, rounds));
+	std::atomic<int> go(0), bad(0);
+	std::mutex mu;
+	std::string why;
+	std::vector<std::thread> th;
+	for (int t = 0; t < T; t++)
+		th.emplace_back([&, t]() {
+			vf::Rng r(vf::mix(seed, t));
+			while (!go.load()) {}
+			for (int k = 0; k < rounds; k++) {
+				static const char* ENT[] = {"&amp;", "&lt;", "&gt;", "&quot;", "&apos;", "&#65;", "&#x42;"};
+				static const char* VAL[] = {"&", "<", ">", "\"", "'", "A", "B"};
+				std::string text, want, att, wantAtt;
+				int n = r.range(1, 8);
+				for (int i = 0; i < n; i++) { int e = (int)r.below(7); text += ENT[e]; want += VAL[e]; text += (char)('a' + r.below(26)); want += text[text.size() - 1]; }
+				n = r.range(0, 5);
+				for (int i = 0; i < n; i++) { int e = (int)r.below(7); att += ENT[e]; wantAtt += VAL[e]; }
+				std::string doc = "<r a=\"" + att + "\"><t>" + text + "</t></r>";
+				Xml x = Xml::decode(String(doc.c_str(), (int)doc.size()));
+				std::string got = x ? std::string(*x("t").text()) : std::string("<null>");
+				std::string gotAtt = x ? std::string(*x["a"]) : std::string("<null>");
+				if (got != want || gotAtt != wantAtt) { bad++; std::lock_guard<std::mutex> l(mu); if (why.empty()) why = vf::fmt("thread %d document %d '%s': text '%s' (expected '%s'), attribute '%s' (expected '%s')", t, k, vf::vis(doc, 120).c_str(), vf::vis(got, 60).c_str(), vf::vis(want, 60).c_str(), vf::vis(gotAtt, 40).c_str(), vf::vis(wantAtt, 40).c_str()); }
+			}
+		});
+	go = 1;
+	for (auto& x : th) x.join();
+	if (bad) c.fail("decode-mt.value-differs", vf::fmt("%d wrong; ", (int)bad) + why);
+	c.evals((uint64_t)T * rounds);
+	c.distinct(seed);
+	if (c.want_sample()) c.sample(c.curdesc());
+}
+
 // ---------------------------------------------------------------- surplus: "</>" with only the seeded root open (isolated defect)
 static void m_surplus(vf::Ctx& c)
 {
@@ -935,6 +978,7 @@ int main(int argc, char** argv)
 	R.add("parents", m_parents, "parent links of every node below the root of whatever decode returns (generated, mutated, round-trip outputs)");
 	R.add("total", m_total, "generated/mutated documents, markup soup and raw bytes: terminates, no memory error, null or a walkable, re-encodable tree");
 	R.add("trunc", m_trunc, "every prefix of generated documents up to ~300 bytes");
+	R.add("decode_mt", m_decode_mt, "first decodes of a fresh process in several threads at once");
 	R.add("surplus", m_surplus, "isolated defect: empty end tag '</>' while only the parser's seeded root is open");
 	R.add("deep", m_deep, "isolated defect: nesting of 200..300000 levels");
 	R.setup = [](const vf::Options& o) {
